@@ -170,7 +170,9 @@ class DefGen:
         # replace_segment rules: distinct keys, non chaining
         if r.random() < 0.3:
             segs = MOD_PREFIX + modpath + [name]
-            keys = r.sample(segs, r.choice([1, 1, 2]))
+            keys = r.sample(sorted(set(segs)), r.choice([1, 1, 2]))
+            if "dup" in segs and "dup" not in keys and r.random() < 0.7:
+                keys[0] = "dup"
             for i, k in enumerate(keys):
                 d["replace"].append((k, r.choice(["Renamed%d" % i, "r#raw%d" % i, "_x%d" % i, "other_mod%d" % i])))
             if r.random() < 0.3:
@@ -449,8 +451,14 @@ class DefGen:
             s += "%s%s%s,\n" % (indent, vis, src_text(f["ft"]))
         return s
 
-    def def_src(self, d, indent):
-        s = self.docs_src(d["docs"], indent)
+    def def_has_bitvec(self, d):
+        return any(f["ft"].has_bitvec() for f in self.all_fields(d))
+
+    def def_src(self, d, indent, gate_bitvec=False):
+        s = ""
+        if gate_bitvec and self.def_has_bitvec(d):
+            s += indent + '#[cfg(feature = "bit-vec")]\n'
+        s += self.docs_src(d["docs"], indent)
         derives = "TypeInfo, Encode" if d["value"] else "TypeInfo"
         s += indent + "#[derive(%s)]\n" % derives
         attrs = []
@@ -668,7 +676,8 @@ class DefGen:
         r = self.r
         n_defs = 260 if self.tier == "thorough" else 90
         # module tree: a few nested modules, some with raw names
-        mods = [[], ["m1"], ["m1", "inner"], ["m2"], ["r#mod"], ["m2", "r#type", "deep"]]
+        # "dup::dup": a segment name that occurs twice in one path (replace_segment must rewrite every occurrence)
+        mods = [[], ["m1"], ["m1", "inner"], ["m2"], ["r#mod"], ["m2", "r#type", "deep"], ["dup", "dup"]]
         by_mod = {}
         defs = []
         for i in range(n_defs):
@@ -680,20 +689,24 @@ class DefGen:
         src = ""
         # emit module tree
 
-        def emit_mod(path, indent):
+        def emit_mod(path, indent, gate=False):
             s = ""
             for d in by_mod.get(tuple(path), []):
-                s += self.def_src(d, indent) + "\n"
+                s += self.def_src(d, indent, gate) + "\n"
             children = sorted({m[len(path)] for m in map(list, by_mod.keys()) if len(m) > len(path) and m[:len(path)] == path})
             for c in children:
                 s += "%spub mod %s {\n%s    use super::*;\n" % (indent, c, indent)
-                s += emit_mod(path + [c], indent + "    ")
+                s += emit_mod(path + [c], indent + "    ", gate)
                 s += indent + "}\n"
             return s
         # make sure intermediate modules exist in by_mod keys
         for m in mods:
             by_mod.setdefault(tuple(m), [])
+        # def_src is not pure (it draws the attribute layout): draw once with a forked RNG state for the gated variant
+        st = self.r.getstate()
         src += emit_mod([], "    ")
+        self.r.setstate(st)
+        self.fp_src = emit_mod([], "    ", True)
         entries = []
         impls = ""
         decls = "pub fn decls() -> Vec<vcommon::decl::Decl> {\n    use prelude::*;\n    use vcommon::decl::*;\n    vec![\n"
@@ -708,7 +721,7 @@ class DefGen:
                 enc = d["value"] and not has_noinfo
                 me = T("def", [env[p] for p in d["tparams"]], {"path": inst})
                 dp = "%s<%s>" % ("g::" + "::".join(d["mod"] + [d["name"]]), ",".join([env[p].deep() for p in d["tparams"]] + [str(env[c]) for c in d["consts"]]))
-                entries.append((inst, inst, dp, enc, self.tags(d)))
+                entries.append((inst, inst, dp, enc, self.tags(d) + (",bitvec_member" if self.def_has_bitvec(d) or any(isinstance(v, T) and v.has_bitvec() for v in env.values()) else "")))
                 if enc:
                     impls += self.sample_model_src(d, env)
                 decls += self.decl_src(d, env)
